@@ -37,6 +37,68 @@ Theorem C48_verdict_table_total : forall p r,
 Proof. intros p r. split; [apply reaction_total|apply reaction_ignored_iff]. Qed.
 Print Assumptions C48_verdict_table_total.
 
+(* ---- the server's reaction, for one request through ReverseProxy.ServeHTTP + FinishReq on the model ----
+   react chains p = reaction of the server to the verdict of the chain registered at point p;
+   earlier_pass chains p = every request-phase point before p let the request pass. *)
+
+(* A close verdict (HandleAccept; HandleBeforeLocation / FoundProduct / AfterLocation) sends nothing to the client,
+   contacts no backend and closes the connection. *)
+Theorem C48_close_sends_nothing : forall chains bst p,
+  In p [PBeforeLocation; PFoundProduct; PAfterLocation] -> earlier_pass chains p -> react chains p = RCloseDirect ->
+  let q := serve_request chains bst in q_reply q = no_reply /\ q_contacted q = 0 /\ q_keep q = false.
+Proof. exact close_sends_nothing. Qed.
+Print Assumptions C48_close_sends_nothing.
+Theorem C48_accept_close_sends_nothing : forall h bst chains,
+  react chains PAccept = RCloseDirect ->
+  let k := serve_conn h bst chains in k_reply k = no_reply /\ k_contacted k = 0 /\ k_open k = 0.
+Proof. exact accept_close_sends_nothing. Qed.
+Print Assumptions C48_accept_close_sends_nothing.
+
+(* A redirect verdict at a request-phase point sends exactly that redirect (code, Location, body) without contacting a backend. *)
+Theorem C48_redirect_exact : forall chains bst p,
+  In p [PBeforeLocation; PFoundProduct; PAfterLocation] -> earlier_pass chains p -> react chains p = RRedirect ->
+  let q := serve_request chains bst in
+  q_reply q = redir_reply (variant (verdict_at chains p)) /\ q_contacted q = 0.
+Proof. exact redirect_exact. Qed.
+Print Assumptions C48_redirect_exact.
+
+(* A response verdict at a request-phase point contacts no backend and sends exactly the module's response - provided the
+   HandleReadResponse chain, which the server still runs on that response, neither finishes nor redirects. *)
+Theorem C48_response_exact : forall chains bst p,
+  In p [PBeforeLocation; PFoundProduct; PAfterLocation] -> earlier_pass chains p -> react chains p = RResponse ->
+  let q := serve_request chains bst in
+  q_contacted q = 0 /\ (react chains PReadResponse = RIgnore -> q_reply q = mod_reply (variant (verdict_at chains p))).
+Proof. exact response_exact. Qed.
+Print Assumptions C48_response_exact.
+
+(* A finish verdict closes the connection after a reply, at every point where the server honours it. *)
+Theorem C48_finish_closes_after_reply : forall chains bst,
+  (forall p, In p [PBeforeLocation; PFoundProduct; PAfterLocation] -> earlier_pass chains p ->
+             react chains p = RCloseAfterReply ->
+             let q := serve_request chains bst in q_keep q = false /\ r_status (q_reply q) <> 0 /\ q_contacted q = 0)
+  /\ (earlier_pass chains PForward -> react chains PForward = RCloseAfterReply ->
+      let q := serve_request chains bst in q_keep q = false /\ r_status (q_reply q) <> 0 /\ q_contacted q = 0)
+  /\ (earlier_pass chains PForward -> react chains PReadResponse = RCloseAfterReply ->
+      let q := serve_request chains bst in q_keep q = false /\ r_status (q_reply q) <> 0)
+  /\ (react chains PRequestFinish = RCloseAfterReply -> q_keep (serve_request chains bst) = false).
+Proof.
+  intros chains bst. split; [intros p; apply finish_closes_request_point|].
+  split; [apply finish_closes_forward|]. split; [apply finish_closes_read_response|apply finish_closes_at_request_finish].
+Qed.
+Print Assumptions C48_finish_closes_after_reply.
+
+(* A (point, verdict) pair the switch ignores behaves exactly as continue. *)
+Theorem C48_ignored_is_continue : forall chains bst p calls rest,
+  In p [PBeforeLocation; PFoundProduct; PAfterLocation] -> react chains p = RIgnore ->
+  request_points chains bst (p :: rest) calls = request_points chains bst rest (calls ++ [(p, fst (run_chain (chains p)))]).
+Proof. exact ignored_is_continue. Qed.
+Print Assumptions C48_ignored_is_continue.
+
 (* Non-vacuity: a 4-handler chain continue, continue, Response(variant 1), Close: the first three run, verdict Response. *)
 Example C48_chain_example : run_chain [1; 11; 13; 4] = ([1; 11; 13], 13) /\ first_non_continue [1; 11; 13; 4] = 2%nat.
 Proof. exact (conj eq_refl eq_refl). Qed.
+(* Non-vacuity for the reaction theorems: Close at HandleFoundProduct after BeforeLocation passed; Response at AfterLocation. *)
+Example C48_close_example :
+  let chains := fun p => if p =? 3 then [1; 4] else [1; 1] in
+  earlier_pass chains 3 /\ react chains 3 = RCloseDirect /\ q_calls (serve_request chains 200) = [(2, [1; 1]); (3, [1; 4]); (7, [1; 1])].
+Proof. exact close_example. Qed.
